@@ -35,6 +35,8 @@ DayClauses(o) ==
      THEN  \* before 1 March 1900: only monotone and invertible
           Cl("serial_not_increasing", r[4].t = "num" /\ r[18].t = "num" /\ QLt(QOf(r[4]), QOf(r[18])))
           \o Cl("date_round_trip", IsD(r[19], c, 0))
+          \* DAYS and subtraction see the serial DATEVALUE reports (whatever it is before 1 March 1900)
+          \o Cl("DAYS_sees_serial", r[4].t = "num" /\ r[4].d = 1 /\ IsN(r[6], r[4].n - nb) /\ IsN(r[7], r[4].n - nb) /\ IsN(r[5], r[4].n))
           \o (IF "calendar" \in DOMAIN o.in      \* C14: the calendar functions do not depend on the serial scale
               THEN Cl("parts_of_date", IsN(r[10], c.y) /\ IsN(r[11], c.mo) /\ IsN(r[12], c.d))
                    \o Cl("parts_of_DATE", IsN(r[22], c.y) /\ IsN(r[23], c.mo) /\ IsN(r[24], c.d))
@@ -64,6 +66,10 @@ InstantClauses(o) ==
   IN Cl("date_round_trip_ms", IsD(r[1], c, o.in.ms))
      \o Cl("serial_not_increasing", HasPos(r[2]) /\ HasPos(r[3]) /\ PosLt(PosOf(r[2]), PosOf(r[3])) /\ IsB(r[4], TRUE))
      \o Cl("comparison_sees_serial", IsB(r[11], TRUE) /\ IsB(r[12], TRUE) /\ IsB(r[13], TRUE) /\ IsB(r[14], TRUE))
+     \* a date-time against itself and against its own serial, on either side of the operator
+     \o Cl("comparison_sees_same_serial_on_both_sides",
+            IsB(r[15], TRUE) /\ IsB(r[16], TRUE) /\ IsB(r[17], TRUE) /\ IsB(r[18], FALSE) /\ IsB(r[19], FALSE)
+            /\ IsB(r[20], TRUE) /\ IsB(r[21], TRUE) /\ IsB(r[22], TRUE) /\ IsB(r[23], FALSE) /\ IsB(r[24], FALSE))
      \o (IF n >= FirstExcelDay
          THEN Cl("whole_part_of_serial", IsN(r[5], n))
               \o Cl("comparison_sees_serial", IsB(r[6], TRUE) /\ IsB(r[7], o.in.ms = 0) /\ IsB(r[8], o.in.ms > 0)
